@@ -22,6 +22,10 @@ def run(ctx):
                        {"panic", "sdf-sign", "sdf-dist", "sdf-point", "sdf-normal"}, judge="geom/VoxelJudge", timeout=3000)
     import c06_prims
     c06_prims.run(ctx)
+    # 2-D mesh fields (MeshToSDF, GroupedSegmentsToSDF) on pixel worlds and integer polygons: exact rational squared
+    # distance, even-odd sign off the outline, nearest point / face / normal consistent with the distance
+    import c08_accel2
+    c08_accel2.run(ctx, clauses=c08_accel2.C06_CLAUSES, kinds="sdf")
     # transform-derived fields: every chain of distance-preserving-up-to-scale transform atoms around a box field
     from props import C05
     C05.chains_stage(ctx, clauses={"panic", "sdf"}, label="transformed-fields")
